@@ -256,6 +256,42 @@ Proof.
   - inversion H; subst. split; assumption.
 Qed.
 
+Theorem narrow_isinstance_l_sound : forall t ks yes no v,
+  narrow_isinst_l P true t ks = Ok (yes, no) -> mem P v t ->
+  (existsb (isinst P v) ks = true -> mem P v yes) /\ (existsb (isinst P v) ks = false -> mem P v no).
+Proof.
+  intros t ks yes no v H Hv. unfold narrow_isinst_l in H. simpl in H.
+  set (Ks := map ty_of_cref ks) in *.
+  match type of H with (if negb ?c then _ else _) = _ => destruct c eqn:Hall end; [|discriminate].
+  simpl in H. rewrite forallb_forall in Hall.
+  destruct (mem_items _ _ Hv) as [i [Hi Hvi]]. specialize (Hall _ Hi).
+  assert (Y : existsb (isinst P v) ks = true -> mem P v (mk_union P (flat_map (yes_item_l P Ks) (items t)))).
+  { intro Ht. apply existsb_exists in Ht. destruct Ht as [k [Hk Hik]].
+    destruct (existsb (fun K => is_subtype P i K) Ks) eqn:E1.
+    - eapply mk_union_sound; [|exact Hvi]. apply in_flat_map. exists i. split; [exact Hi|].
+      unfold yes_item_l. rewrite E1. left; reflexivity.
+    - simpl in Hall. rewrite forallb_forall in Hall.
+      assert (HK : In (ty_of_cref k) Ks) by (unfold Ks; apply in_map; exact Hk).
+      specialize (Hall _ HK). apply orb_prop in Hall. destruct Hall as [Hs|Hd].
+      + eapply mk_union_sound; [|eapply isinst_mem; eauto]. apply in_flat_map. exists i. split; [exact Hi|].
+        unfold yes_item_l. rewrite E1. apply filter_In. split; assumption.
+      + exfalso. eapply disjoint_sound; eauto. }
+  assert (N : existsb (isinst P v) ks = false -> mem P v (mk_union P (flat_map (no_item_l P Ks) (items t)))).
+  { intro Hf. destruct (existsb (fun K => is_subtype P i K) Ks) eqn:E1.
+    - apply existsb_exists in E1. destruct E1 as [K [HK Hs]]. unfold Ks in HK. apply in_map_iff in HK.
+      destruct HK as [k [<- Hk]]. pose proof (subtype_sound _ _ Hs _ Hvi) as Hm. apply mem_isinst in Hm.
+      assert (existsb (isinst P v) ks = true) by (apply existsb_exists; exists k; split; assumption). congruence.
+    - eapply mk_union_sound; [|exact Hvi]. apply in_flat_map. exists i. split; [exact Hi|].
+      unfold no_item_l. rewrite E1. left; reflexivity. }
+  destruct (is_never (mk_union P (flat_map (yes_item_l P Ks) (items t)))) eqn:En.
+  - assert (Hno : existsb (isinst P v) ks = true -> False).
+    { intro Ht. specialize (Y Ht). destruct (mk_union P _) as [| | | | |[|]|]; try discriminate.
+      apply mem_union_inv in Y. destruct Y as [? [[] _]]. }
+    destruct (forallb instance_like (items t) && negb (is_never t)); [discriminate|].
+    inversion H; subst. split; intro Hx; [exfalso; auto | exact Hv].
+  - inversion H; subst. split; assumption.
+Qed.
+
 (* the narrowed types are parts of the original type *)
 Lemma narrow_isinst_dec : forall sm t k yes no v, narrow_isinst P sm t k = Ok (yes, no) ->
   (mem P v yes -> mem P v t \/ mem P v (ty_of_cref k)) /\ (mem P v no -> mem P v t).
